@@ -133,4 +133,80 @@ def splitRule (dflt : Option Kind) (s : Bytes) : Option (Kind × Bytes) :=
     else if typ = [] then dflt.map (·, pat)
     else none
 
+/-! ### `data_provider/domain_set`: sets assembled from own rules and other sets
+
+`NewDomainSet` loads the set's expressions and files into one `MixMatcher`
+(default type `domain`), keeps it as a member of the set's group if
+`m.Len() > 0`, and then appends, for every tag under `sets:`, the matcher of
+that plugin (which must exist already: plugins are built in configuration
+order). `MatcherGroup.Match` asks the members in turn. -/
+
+mutual
+/-- `labelNode.len`: the valued nodes below the node (its own value is not counted). -/
+def Trie.len {V : Type} : Trie V → Nat
+  | .node _ kids => Trie.lenKids kids
+def Trie.lenKids {V : Type} : List (Label × Trie V) → Nat
+  | [] => 0
+  | p :: ks => Trie.len p.2 + (if (Trie.val p.2).isSome then 1 else 0) + Trie.lenKids ks
+end
+
+/-- `SubDomainMatcher.Len`: `labelNode.len` of the root, plus one for a value at the root itself (the
+rule for the root domain). `rootCounted = false` is the `Len` of the tree before the fix of finding
+F14, which returned `m.root.len()` alone. -/
+def Trie.subLen {V : Type} (rootCounted : Bool) (t : Trie V) : Nat :=
+  t.len + (if rootCounted && t.val.isSome then 1 else 0)
+
+/-- `MixMatcher.Len` (the maps hold one entry per distinct rule, like `upsert`). -/
+def Mix.lenWith {V} (rootCounted : Bool) (m : Mix V) : Nat :=
+  m.full.length + m.domain.subLen rootCounted + m.regexp.length + m.keyword.length
+
+def Mix.len {V} (m : Mix V) : Nat := m.lenWith true
+
+/-- does `MixMatcher.Match` report a match -/
+def Mix.hit {V} (m : Mix V) (re : Bytes → Bytes → Bool) (name : Bytes) : Bool := !(m.candidates re name).isEmpty
+
+/-- rules (kind, pattern) loaded oldest first -/
+def mixOfRules (rs : List (Kind × Bytes)) : Mix Unit := rs.foldl (fun m r => m.add r.1 r.2 ()) {}
+
+/-- A `domain_set` plugin as the constructor sees it: does the `MixMatcher`
+holding its own rules match a name, is that matcher kept (`Len() > 0`), and
+which earlier plugins `sets:` names (positions in configuration order). -/
+structure SetDef where
+  own : Bytes → Bool
+  kept : Bool
+  refs : List Nat
+
+abbrev SetMatcher := Bytes → Bool
+
+/-- `MatcherGroup.Match` -/
+def groupMatch (members : List SetMatcher) (name : Bytes) : Bool := members.any (fun f => f name)
+
+/-- the loop over `args.Sets`: the matcher of every named plugin, `none` if one does not exist (yet) -/
+def lookupAll (built : List SetMatcher) : List Nat → Option (List SetMatcher)
+  | [] => some []
+  | j :: js => match built[j]?, lookupAll built js with
+    | some m, some ms => some (m :: ms)
+    | _, _ => none
+
+/-- `NewDomainSet` given the plugins built so far; `none` = "is not a DomainMatcherProvider". -/
+def newSet (built : List SetMatcher) (d : SetDef) : Option SetMatcher :=
+  match lookupAll built d.refs with
+  | none => none
+  | some rs => some (groupMatch ((if d.kept then [d.own] else []) ++ rs))
+
+/-- the plugins of a configuration, built in order -/
+def buildSets (built : List SetMatcher) : List SetDef → Option (List SetMatcher)
+  | [] => some built
+  | d :: ds => match newSet built d with
+    | none => none
+    | some m => buildSets (built ++ [m]) ds
+
+/-- the `SetDef` of a set given by its own rules (type, pattern) and its `sets:` -/
+def defOfRules (re : Bytes → Bytes → Bool) (c : List (Kind × Bytes) × List Nat) : SetDef :=
+  { own := (mixOfRules c.1).hit re, kept := decide ((mixOfRules c.1).len > 0), refs := c.2 }
+
+/-- ... given by its rule texts (expressions and file lines; default type `domain`); `none` = a rule is rejected -/
+def setOfRules (re : Bytes → Bytes → Bool) (rules : List Bytes) (refs : List Nat) : Option SetDef :=
+  (rules.mapM (splitRule (some .domain))).map fun rs => defOfRules re (rs, refs)
+
 end Model.C12
